@@ -40,7 +40,7 @@ def padLeft (fill width : Nat) (s : Bytes) : Bytes :=
 
 /-! ### INTERVAL: `HH:MM:SS.mmm` from chrono's `num_seconds()`/`num_milliseconds()` (truncating) -/
 
-def renderInterval (ns : Int) : Bytes :=
+def renderIntervalAbs (ns : Int) : Bytes :=
   let secs := ns.tdiv 1000000000            -- num_seconds(): truncated toward zero
   let sub := ns.tmod 1000000000             -- subsec_nanos(): same sign as the duration
   let seconds := secs.tmod 60
@@ -49,6 +49,10 @@ def renderInterval (ns : Int) : Bytes :=
   let millis := sub.tdiv 1000000            -- num_milliseconds() - num_seconds() * 1000
   padLeft 48 2 (renderInt hours) ++ [58] ++ padLeft 48 2 (renderInt minutes) ++ [58]
     ++ padLeft 48 2 (renderInt seconds) ++ [46] ++ padLeft 48 3 (renderInt millis)
+
+/-- a negative interval is the sign followed by the text of its magnitude (/repo bc60604) -/
+def renderInterval (ns : Int) : Bytes :=
+  if ns < 0 then 45 :: renderIntervalAbs (-ns) else renderIntervalAbs ns
 
 /-! ### TIMESTAMP: `%Y-%m-%d %H:%M:%S.%3f` -/
 
